@@ -648,8 +648,6 @@ SPEC_LOGICAL_BASE = {   # Avro 1.11 "Logical Types": which primitive each logica
 
 LOSSY_CASTS_REVIEWED = {   # (short fn, from, to): (count, reason) - the serializer's only narrowing `as` casts
     ('serialize_unscaled', 'usize', 'i32'): (3, 'lengths of at most 16 bytes of an i128 (len <= 16)'),
-    ('serialize_duration_field', 'isize', 'u8'): (1, 'discriminant of the three-valued field enum (0..=2) used as a bit index'),
-    ('serialize_duration_field', 'isize', 'usize'): (1, 'same discriminant used as an array index'),
 }
 
 
@@ -672,6 +670,10 @@ def ser_narrowing_rule(ctx):
             for s in b.stmts(bb):
                 if 'assign' in s and s['rv']['k'] == 'cast' and s['rv']['cast'] == 'IntToInt' and const_int(s['rv']['op']) is None and lossy_int_cast(s['rv']['from'], s['rv']['to']):
                     n += 1
+                    # `enum_value as u8 / usize` of a field-less enum: the discriminant, always in range
+                    co = origin(b, s['rv']['op'])
+                    if s['rv']['from'] == 'isize' and any(a[0] == 'discr' for a in co.atoms) and not co.has_arith():
+                        continue
                     key = (short_fn(fl).split('::{')[0].rsplit('::', 1)[-1], s['rv']['from'], s['rv']['to'])
                     if key in LOSSY_CASTS_REVIEWED and used.get(key, 0) < LOSSY_CASTS_REVIEWED[key][0]:
                         used[key] = used.get(key, 0) + 1
